@@ -105,7 +105,7 @@ def main():
             for c in checks:
                 t = time.time()
                 rc, out = sh("./check %s %s" % (c, tier), cwd="/verif", timeout=7200)
-                sigs = re.findall(r"^\s+(C\d\d/[^ ]+) ::", out, re.M)
+                sigs = re.findall(r"^\s+(C\d\d/.+?) ::", out, re.M)
                 results[c] = {"exit": rc, "caught": rc == 1 and "VIOLATION property=%s" % c in out, "violation_signatures": sorted(set(sigs))[:12], "wall_s": round(time.time() - t, 1), "tail": out[-600:] if rc not in (0, 1) else ""}
                 meta["what_was_run"].append("./check %s %s  (patch applied to /repo, undone afterwards)" % (c, tier))
         finally:
